@@ -3272,12 +3272,19 @@ XPath::stepPattern(
 
             opPos += 3;
 
-            score = NodeTester(
+            // Only attributes are on the attribute axis.  The node type
+            // tests (node(), text()...) do not look at the axis, so
+            // check here, and leave out namespace declarations.
+            if (context->getNodeType() == XalanNode::ATTRIBUTE_NODE &&
+                DOMServices::isNamespaceDeclaration(static_cast<const XalanAttr&>(*context)) == false)
+            {
+                score = NodeTester(
                             *this,
                             executionContext,
                             opPos,
                             argLen,
                             XPathExpression::eFROM_ATTRIBUTES)(*context, context->getNodeType());
+            }
         }
         break;
 
